@@ -445,7 +445,10 @@ def collect_histories(chk, binary, runs, tag, timeout=180, jobs=None):
             pass
         return i, rc, out, recs
 
-    results = parallel_map(one, list(enumerate(runs)), jobs=jobs)
+    # harness processes are multi-threaded (2-6 threads each): running one per core time-slices the
+    # threads and hides nanosecond-wide races (measured on a seeded async_rw_mutex change: 0 hits with 16
+    # concurrent processes, a hit every ~150 histories with real parallelism).  Keep threads <= cores.
+    results = parallel_map(one, list(enumerate(runs)), jobs=jobs or max(2, NCPU // 3))
     hist = []
     for i, rc, out, recs in results:
         origin = dict(binary=os.path.basename(binary), args=[str(a) for a in runs[i][0]],
